@@ -67,7 +67,8 @@ class IDTFTTransformer(BilateralInverseTransformer):
         result = func(n / scale) / abs(scale)
 
         if shift != 0:
-            result = result * sym.exp(-2 * sym.I * sym.pi * f * shift / scale)
+            # X(f - f0) <-> x(n) * exp(2 * j * pi * f0 * n * dt)
+            result = result * sym.exp(-2 * sym.I * sym.pi * n * dt * shift / scale)
 
         return result
 
